@@ -40,6 +40,17 @@ DOCS = {
 }
 
 
+# document flavours per entry point: other schema versions / namespaces / root attributes a real file may carry
+FLAVOURS = {
+    "ovf": [lambda d: d,
+            lambda d: d.replace("http://schemas.dmtf.org/ovf/envelope/1", "http://schemas.dmtf.org/ovf/envelope/2"),
+            lambda d: d.replace('<Envelope ', '<Envelope ovf:version="1.0" xml:lang="en-US" ')],
+    "vbox": [lambda d: d, lambda d: d.replace('version="1.16"', 'version="1.19-linux"'), lambda d: d.replace('version="1.16"', 'version="1.12-windows"')],
+    "pvs": [lambda d: d, lambda d: d.replace("<ParallelsVirtualMachine>", '<ParallelsVirtualMachine dyn_lists="VirtualAppliance 0" schemaVersion="1.0">')],
+    "hdd": [lambda d: d, lambda d: d.replace('Version="1.0"', 'Version="2.0"')],
+}
+
+
 def families():
     fam = []
     for depth in range(1, 13):
@@ -57,7 +68,7 @@ def families():
     return fam
 
 
-def make_doc(entry: str, fam, root: str, variant: int) -> tuple[str, bool]:
+def make_doc(entry: str, fam, root: str, variant: int, flavour: int = 0) -> tuple[str, bool]:
     """Returns (document text, declares_entity)."""
     body, rootname = DOCS[entry]
     kind, arg, pos = fam
@@ -107,6 +118,7 @@ def make_doc(entry: str, fam, root: str, variant: int) -> tuple[str, bool]:
     if kind == "external_general" and pos == "attr":
         pass  # external entities are not allowed in attribute values by XML itself; still a declaration -> refused
     doc = body.replace("TEXT", text if pos == "elem" else "t").replace("ATTR", attr)
+    doc = FLAVOURS[entry][flavour % len(FLAVOURS[entry])](doc)
     pro = rng.choice(['<?xml version="1.0" encoding="UTF-8"?>', "<?xml version='1.0'?>", ""]) if variant else '<?xml version="1.0"?>'
     ws = rng.choice(["", "\n", "\n  "]) if variant else ""
     return pro + ws + decl + ws + doc, declares
@@ -116,9 +128,10 @@ def _plan(tier, verif_seed):
     variants = 1 if tier == "quick" else 12
     plan = []
     for e in ENTRY:
-        for fam in families():
-            for v in range(variants):
-                plan.append((e, fam, v + (verif_seed - 1) * 100 if v else 0))
+        for fl in range(len(FLAVOURS[e])):
+            for fam in families():
+                for v in range(variants):
+                    plan.append((e, fam, v + (verif_seed - 1) * 100 if v else 0, fl))
     return plan
 
 
@@ -128,8 +141,8 @@ def plan_size(prop, tier, verif_seed):
 
 def gen_case(seed, prop, tier, index=0, verif_seed=1):
     plan = _plan(tier, verif_seed)
-    e, fam, v = plan[index % len(plan)]
-    return {"engine": "xmlsim", "prop": prop, "seed": seed, "entry": e, "family": list(fam), "variant": v}
+    e, fam, v, fl = plan[index % len(plan)]
+    return {"engine": "xmlsim", "prop": prop, "seed": seed, "entry": e, "family": list(fam), "variant": v, "flavour": fl}
 
 
 def _parse(entry, world, path):
@@ -171,7 +184,8 @@ def run_case(case: dict) -> RunResult:
     sig = {"entry": entry, "family": fam[0]}
     d = world.root + "/vm/x.hdd" if entry == "hdd" else world.root + "/vm"
     fname = {"ovf": "a.ovf", "vbox": "a.vbox", "pvs": "config.pvs", "hdd": "DiskDescriptor.xml"}[entry]
-    doc, declares = make_doc(entry, fam, world.root, case["variant"])
+    flavour = case.get("flavour", 0)
+    doc, declares = make_doc(entry, fam, world.root, case["variant"], flavour)
     viol = None
 
     def v(klass, detail):
@@ -184,14 +198,15 @@ def run_case(case: dict) -> RunResult:
         honey = SimFile()
         honey.write(0, b"TOP-SECRET-HONEYPOT\n")
         world.fs.add(world.root + "/secret.txt", honey)
-        if entry not in _clean:
+        ck = (entry, flavour)
+        if ck not in _clean:
             cw = World("clean")
             with cw.fs:
                 cd = cw.root + ("/vm/x.hdd" if entry == "hdd" else "/vm")
                 cf = SimFile()
-                cf.write(0, make_doc(entry, ("control_plain", 0, "none"), cw.root, 0)[0].encode())
+                cf.write(0, make_doc(entry, ("control_plain", 0, "none"), cw.root, 0, flavour)[0].encode())
                 cw.fs.add(cd + "/" + fname, cf)
-                _clean[entry] = _parse(entry, cw, cd + "/" + fname)
+                _clean[ck] = _parse(entry, cw, cd + "/" + fname)
         MONITOR.reset()
         outcome = None
         result = None
@@ -230,14 +245,15 @@ def run_case(case: dict) -> RunResult:
             viol = v("entity-accepted", f"a document declaring an entity was parsed ({fam})")
         elif not declares and outcome != "parsed":
             viol = v("control-refused", f"a document without entity declarations was refused: {outcome} ({fam})")
-        elif not declares and result != _clean[entry]:
-            viol = v("control-differs", f"control document parsed to {result!r:.150}, clean document to {_clean[entry]!r:.150}")
+        elif not declares and result != _clean[ck]:
+            viol = v("control-differs", f"control document parsed to {result!r:.150}, clean document to {_clean[ck]!r:.150}")
     res = RunResult(log, viol)
-    key = (entry, fam[0], fam[1] if fam[0] in ("internal_nested", "external_general", "external_parameter") else 0, fam[2], (outcome or "").split(":")[0])
+    key = (entry, flavour, fam[0], fam[1] if fam[0] in ("internal_nested", "external_general", "external_parameter") else 0, fam[2], (outcome or "").split(":")[0])
     res.keys.add(key)
     if declares:
         res.nontrivial_keys.add(key)
     res.probes["xml.entry_" + entry] = 1
+    res.probes["xml.flavour_%s_%d" % (entry, flavour)] = 1
     res.probes["xml.family_" + fam[0]] = 1
     res.probes["xml.outcome_" + (outcome or "?").split(":")[0]] = 1
     res.faults["hostile_xml:" + fam[0]] += 1 if declares or fam[0] == "external_subset_only" else 0
